@@ -156,7 +156,7 @@ class C11(F.Check):
                 for kind, msg in judge(ex, h):
                     res.violate('C11:%s:%s' % (hname, kind), msg + ' [found by the all-interleavings search]',
                                 {'h': hname, 'choices': list(ex.sched.taken)})
-            r = sched_closure.explore_all(run_one, on_full, max_states=80000)
+            r = sched_closure.explore_all(run_one, on_full, max_states=50000)
             res.states |= set(F.hs((hname, 'closure', k)) for k in r['seen'])
             res.n_transitions += r['transitions']
             res.counters['closure_states:' + hname] = r['states']
